@@ -386,8 +386,9 @@ class RegexPatternProvider(MorphingProvider):
 
             try:
                 return re_compile(data, flags)
-            # OverflowError: "the repetition number is too large", ValueError: "ASCII and UNICODE flags are incompatible"
-            except (re.error, OverflowError, ValueError) as e:
+            # OverflowError: "the repetition number is too large", ValueError: "ASCII and UNICODE flags are incompatible",
+            # RecursionError: the pattern is nested too deeply for the regex compiler
+            except (re.error, OverflowError, ValueError, RecursionError) as e:
                 raise ValueLoadError(str(e), data)
 
         return regex_loader
